@@ -25,6 +25,8 @@ InitSt == [algo |-> "", X |-> <<>>, y |-> <<>>, targets |-> <<>>, reg |-> Zero, 
 
 CloseVal(a, b) == IsFin(a) /\ Approx(a, b, 1, 2, Add(Abs(b), One))            \* 2^-15 relative (+2^-30)
 CloseGrad(A, C) == AllFinM(A) /\ Len(A) = Len(C) /\ ApproxM(A, C, 1, 2, Add(MaxAbsM(C), One))
+\* ... plus 2^-45 * cond (GradObj: conditioning of the soft-max gradients w.r.t. the rounding of the logged P)
+CloseGradC(A, C, cond) == AllFinM(A) /\ Len(A) = Len(C) /\ ApproxM(A, C, 1, 2, Add(Add(MaxAbsM(C), One), Shift(cond, -1)))
 
 DataStep(s, ev) ==
   LET ok == IF ev.algo = "LMNN"
@@ -51,13 +53,13 @@ EvalStep(s, ev) ==
            g == NCAGrad(ev.L, s.X, ev.P, s.y)
        IN R([s EXCEPT !.evals = Append(s.evals, <<ev.L, Neg(v)>>)],      \* remembered as a quantity to MINIMISE
             G("C10.nca_value_is_documented_objective", CloseVal(ev.value, v))
-            \cup G("C10.nca_gradient_is_derivative_of_documented_objective", CloseGrad(ev.grad, g)),
+            \cup G("C10.nca_gradient_is_derivative_of_documented_objective", CloseGradC(ev.grad, g, NCAGradCond(ev.L, s.X))),
             {"C10.nca_value_is_documented_objective", "C10.nca_gradient_is_derivative_of_documented_objective"})
   ELSE LET v == MLKRValue(ev.P, s.y)
            g == MLKRGrad(ev.L, s.X, ev.P, s.y)
        IN R([s EXCEPT !.evals = Append(s.evals, <<ev.L, v>>)],
             G("C10.mlkr_value_is_documented_objective", CloseVal(ev.value, v))
-            \cup G("C10.mlkr_gradient_is_derivative_of_documented_objective", CloseGrad(ev.grad, g)),
+            \cup G("C10.mlkr_gradient_is_derivative_of_documented_objective", CloseGradC(ev.grad, g, MLKRGradCond(ev.L, s.X, ev.P, s.y))),
             {"C10.mlkr_value_is_documented_objective", "C10.mlkr_gradient_is_derivative_of_documented_objective"})
 
 ResultStep(s, ev) ==
